@@ -261,6 +261,15 @@ def run_user_currency(idx, minor, sf):
                                         'ROUND_HALF_EVEN'):
             out.append(('C08:user:rounding:arith', f"1 {sym} * 1.03 = "
                         f"{m.amount!r}"))
+    # the symbol of a directly declared currency is still not an ISO code
+    try:
+        r = Money.register_currency(sym)
+        out.append(('C08:iso:reject:declared-directly',
+                    f"register_currency({sym!r}) returned {r!r}: {sym} is "
+                    "not in the ISO 4217 table (a currency with that symbol "
+                    "was declared with new_unit)"))
+    except ValueError:
+        pass
     return out
 
 
